@@ -375,6 +375,200 @@ static Family cache_family(const std::string &tier)
   return f;
 }
 
+// ------------------------------------------------------------- C09: failover
+static Family failover_family(const std::string &tier)
+{
+  Family f;
+  f.name = "failover";
+  struct P {
+    int srv; bool rot; int chance, delay, tries;
+  };
+  std::vector<P> ps = { { 2, false, 0, 5000, 2 }, { 2, false, 1, 0, 2 }, { 2, false, 1, 5000, 2 }, { 2, true, 0, 5000, 1 }, { 3, false, 1, 0, 1 }, { 3, true, 1, 5000, 1 } };
+  if (tier != "quick") ps.push_back({ 3, false, 0, 5000, 2 });
+  for (auto &p : ps) {
+    Cfg c          = cfg("", p.srv, p.tries, 0);
+    c.rotate       = p.rot;
+    c.retry_chance = p.chance;
+    c.retry_delay  = p.delay;
+    c.auto_io      = true;
+    char b[96];
+    snprintf(b, sizeof b, "srv%d-%s-chance%d-delay%d-tries%d", p.srv, p.rot ? "rotate" : "norotate", p.chance, p.delay, p.tries);
+    c.name = b;
+    f.cfgs.push_back(c);
+  }
+  f.reqs.push_back(rq(2, "a.example.com"));
+  f.reqs.push_back(rq(2, "b.example.com"));
+  f.reqs.push_back(rq(2, "c.example.com", 28));
+  f.req_menu   = { 0, 1, 2 };
+  f.replies    = { RK_DATA, RK_SERVFAIL };
+  f.faults     = { FS_SEND_REFUSED, FS_CONNECT };
+  f.setservers = { 2, 3 };
+  f.advances   = { 6000 };
+  f.evmask     = EVBIT(EV_REQ) | EVBIT(EV_REPLY) | EVBIT(EV_TIMER) | EVBIT(EV_FAULT) | EVBIT(EV_SETSERVERS) | EVBIT(EV_ADVANCE) | EVBIT(EV_IO);
+  f.policy_mask = (1u << ARES_VERIF_RAND_ROTATE) | (1u << ARES_VERIF_RAND_PROBE);
+  f.max_req    = 3;
+  f.max_adv    = 1;
+  f.max_depth  = tier == "quick" ? 5 : 7;
+  f.max_dev    = 1;
+  f.default_oracles = "C09";
+  f.end_oracle = [](World &w, const History &h) { oracle_c09_failover(w, h); };
+  return f;
+}
+
+// --------------------------------------------------------------- C12: search
+static Family search_family(const std::string &tier)
+{
+  Family f;
+  f.name = "search";
+  std::vector<std::vector<std::string>> doms = { {}, { "d1.test" }, { "d1.test", "d2.test" }, { "." }, { "d1.test", "." } };
+  for (int ndots : { 0, 1, 2, 3 })
+    for (size_t di = 0; di < doms.size(); di++) {
+      if (tier == "quick" && ndots == 3 && di != 2) continue;
+      Cfg c     = cfg("", 1, 1, 0);
+      c.ndots   = ndots;
+      c.domains = doms[di];
+      c.auto_io = true;
+      char b[64];
+      snprintf(b, sizeof b, "ndots%d-doms%zu", ndots, di);
+      c.name = b;
+      f.cfgs.push_back(c);
+    }
+  {
+    Cfg c     = cfg("nosearch", 1, 1, ARES_FLAG_NOSEARCH);
+    c.domains = { "d1.test", "d2.test" };
+    c.auto_io = true;
+    f.cfgs.push_back(c);
+  }
+  {
+    Cfg c         = cfg("aliases", 1, 1, 0);
+    c.domains     = { "d1.test" };
+    c.hostaliases = "host real.alias.test\nother x.y.test\n";
+    c.auto_io     = true;
+    f.cfgs.push_back(c);
+  }
+  {
+    Cfg c         = cfg("noaliases", 1, 1, ARES_FLAG_NOALIASES);
+    c.domains     = { "d1.test" };
+    c.hostaliases = "host real.alias.test\n";
+    c.auto_io     = true;
+    f.cfgs.push_back(c);
+  }
+  const char *names[] = { "host", "a.b", "a.b.c", "a.b.c.d", "host.", "a.b.", "a\\.b" };
+  for (const char *n : names) {
+    f.reqs.push_back(rq(4, n));                          // search_dnsrec
+    f.reqs.push_back(rq(5, n));                          // ares_search (legacy)
+    f.reqs.push_back(rq(6, n, 1, 0, 0, AF_UNSPEC));      // getaddrinfo A+AAAA
+    f.reqs.push_back(rq(7, n, 1, 0, 0, AF_INET));        // gethostbyname
+  }
+  for (int i = 0; i < (int)f.reqs.size(); i++) {
+    if (tier == "quick" && (i % 4 == 1 || i % 4 == 3) && i >= 8) continue; // legacy variants only for the first two names in quick
+    f.req_menu.push_back(i);
+  }
+  f.replies   = { RK_DATA, RK_NODATA, RK_NXDOMAIN, RK_SERVFAIL, RK_REFUSED };
+  f.evmask    = EVBIT(EV_REQ) | EVBIT(EV_REPLY) | EVBIT(EV_TIMER);
+  f.max_req   = 1;
+  f.max_timer = 1;
+  f.max_depth = tier == "quick" ? 5 : 7;
+  f.default_oracles = "C12";
+  f.end_oracle = [](World &w, const History &h) { oracle_c12_search(w, h); };
+  return f;
+}
+
+// ---------------------------------------------------------------- C13: addrs
+static Family addrs_family(const std::string &tier)
+{
+  Family f;
+  f.name = "addrs";
+  struct P {
+    const char *lookups, *hosts, *sortlist;
+  };
+  std::vector<P> ps = {
+    { "b", "", "" },
+    { "b", "", "10.9.0.0/255.255.0.0 10.10.0.0/255.255.0.0" },
+    { "fb", "10.7.7.7 hosted.example.com hostalias\nfd00::77 hosted.example.com\n", "" },
+    { "bf", "10.7.7.7 hosted.example.com\n", "" },
+    { "f", "10.7.7.7 hosted.example.com\n", "" },
+  };
+  for (auto &p : ps) {
+    Cfg c      = cfg("", 1, 1, 0);
+    c.lookups  = p.lookups;
+    c.hosts    = p.hosts;
+    c.sortlist = p.sortlist;
+    c.domains  = {};
+    c.auto_io  = true;
+    c.name     = std::string("lookups-") + p.lookups + (p.hosts[0] ? "-hosts" : "") + (p.sortlist[0] ? "-sortlist" : "");
+    f.cfgs.push_back(c);
+  }
+  auto gai = [&](const char *n, int fam, int flags, const char *svc) {
+    ReqSpec r  = rq(6, n, 1, 0, 0, fam);
+    r.ai_flags = flags;
+    r.service  = svc;
+    f.reqs.push_back(r);
+  };
+  for (int fam : { AF_UNSPEC, AF_INET, AF_INET6 }) {
+    gai("www.example.com", fam, 0, "");
+    gai("www.example.com", fam, ARES_AI_NOSORT | ARES_AI_CANONNAME, "");
+    gai("www.example.com", fam, ARES_AI_NUMERICSERV, "8080");
+  }
+  gai("hosted.example.com", AF_UNSPEC, 0, "");
+  gai("hosted.example.com", AF_INET6, 0, "");
+  gai("10.1.2.3", AF_UNSPEC, 0, "");
+  gai("fd00::9", AF_INET6, 0, "");
+  gai("localhost", AF_UNSPEC, 0, "");
+  gai("x.localhost", AF_INET, 0, "");
+  f.reqs.push_back(rq(7, "www.example.com", 1, 0, 0, AF_INET));
+  f.reqs.push_back(rq(7, "www.example.com", 1, 0, 0, AF_INET6));
+  f.reqs.push_back(rq(7, "hosted.example.com", 1, 0, 0, AF_INET));
+  f.reqs.push_back(rq(8, "10.9.0.7", 12, 0, 0, AF_INET));
+  f.reqs.push_back(rq(8, "fd00::1234:5", 12, 0, 0, AF_INET6));
+  f.reqs.push_back(rq(9, "10.250.3.77", 12, 0, 0, AF_INET));
+  f.reqs.push_back(rq(9, "2001:db8::ff00:42:8329", 12, 0, 0, AF_INET6));
+  for (int i = 0; i < (int)f.reqs.size(); i++) f.req_menu.push_back(i);
+  f.replies   = { RK_DATA, RK_DATA_MULTI, RK_CNAME_DATA, RK_DATA_MIXED, RK_NODATA, RK_NXDOMAIN };
+  f.evmask    = EVBIT(EV_REQ) | EVBIT(EV_REPLY) | EVBIT(EV_SRCADDR);
+  f.max_req   = 1;
+  f.max_depth = tier == "quick" ? 4 : 5;
+  f.default_oracles = "C13";
+  f.end_oracle = [](World &w, const History &h) { oracle_c13_addrs(w, h); };
+  return f;
+}
+
+// --------------------------------------------------------------- C17: cookie
+static Family cookie_family(const std::string &tier)
+{
+  Family f;
+  f.name = "cookie";
+  {
+    Cfg c     = cfg("1srv-edns", 1, 3, ARES_FLAG_EDNS);
+    c.auto_io = true;
+    f.cfgs.push_back(c);
+  }
+  {
+    Cfg c     = cfg("2srv-edns", 2, 2, ARES_FLAG_EDNS);
+    c.auto_io = true;
+    f.cfgs.push_back(c);
+  }
+  {
+    Cfg c                = cfg("1srv-edns-wholesecond", 1, 3, ARES_FLAG_EDNS);
+    c.auto_io            = true;
+    c.whole_second_clock = true;
+    f.cfgs.push_back(c);
+  }
+  f.reqs.push_back(rq(2, "a.example.com"));
+  f.reqs.push_back(rq(2, "b.example.com", 28));
+  f.req_menu   = { 0, 1 };
+  f.req_repeat = true;
+  f.replies    = { RK_CK_NONE, RK_CK_VALID, RK_CK_VALID2, RK_CK_WRONGCLIENT, RK_BADCOOKIE, RK_BADCOOKIE_BARE, RK_TC };
+  f.advances   = { 119000, 121000, 301000, 86401000 };
+  f.evmask     = EVBIT(EV_REQ) | EVBIT(EV_REPLY) | EVBIT(EV_TIMER) | EVBIT(EV_ADVANCE) | EVBIT(EV_SRCADDR) | EVBIT(EV_IO);
+  f.max_req    = tier == "quick" ? 3 : 4;
+  f.max_adv    = 2;
+  f.max_depth  = tier == "quick" ? 6 : 8;
+  f.default_oracles = "C17";
+  f.end_oracle = [](World &w, const History &h) { oracle_c17_cookie(w, h); };
+  return f;
+}
+
 const Family *find_family(const std::string &name, const std::string &tier)
 {
   static std::map<std::string, Family> cache;
@@ -390,6 +584,10 @@ const Family *find_family(const std::string &name, const std::string &tier)
   else if (name == "retry-long") f = retry_long_family(tier);
   else if (name == "adversary") f = adversary_family(tier);
   else if (name == "cache") f = cache_family(tier);
+  else if (name == "failover") f = failover_family(tier);
+  else if (name == "search") f = search_family(tier);
+  else if (name == "addrs") f = addrs_family(tier);
+  else if (name == "cookie") f = cookie_family(tier);
   else return nullptr;
   cache[k] = f;
   return &cache[k];
